@@ -129,6 +129,42 @@ Definition set_count (st : lbstate) (i n : Z) : lbstate :=
 Definition add_count (st : lbstate) (i d : Z) : lbstate :=
   set_count st i (nth (Z.to_nat i) (lb_counts st) 0 + d).
 
+(* ---- vocabulary for the statements of C15 (no proofs) ---- *)
+Definition zlen (l : list Z) : Z := Z.of_nat (List.length l).
+Definition is_bytes (s : bytes) : Prop := Forall (fun b => 0 <= b < 256) s.
+
+(* the loops chosen by m consecutive next() calls starting with counter value ctr *)
+Fixpoint rr_accepts (ctr size : Z) (m : nat) : list Z :=
+  match m with
+  | O => []
+  | S m' => match rr_next ctr size with
+            | Ret (i, c) => i :: rr_accepts c size m'
+            | Panic => []
+            end
+  end.
+
+Fixpoint count (i : Z) (l : list Z) : Z :=
+  match l with
+  | [] => 0
+  | x :: t => (if x =? i then 1 else 0) + count i t
+  end.
+
+(* how often loop i occurs in a sequence of picks: `count` above *)
+
+(* a reachable balancer state: as many counts as registered loops *)
+Definition wf (st : lbstate) : Prop :=
+  0 <= lb_size st /\ zlen (lb_counts st) = lb_size st.
+
+(* the loops chosen for a sequence of accepted addresses, and the final state *)
+Fixpoint lb_accepts (st : lbstate) (addrs : list (option bytes)) : list Z * lbstate :=
+  match addrs with
+  | [] => ([], st)
+  | a :: t => match lb_next st a with
+              | (Ret i, st') => let r := lb_accepts st' t in (i :: fst r, snd r)
+              | (Panic, st') => ([], st')
+              end
+  end.
+
 (* ---- trace runner: family "lb" ----
    op lines:
      new rr|lc|hash                 (no obs) fresh balancer
